@@ -324,6 +324,20 @@ func (prog Progress) focusedTransform(n datamodel.Node, na datamodel.NodeAssembl
 		if p.Len() > 1 && !createParents {
 			return fmt.Errorf("transform: parent position at %q did not exist (and createParents was false)", prog.Path)
 		}
+		if end {
+			// The TransformFn has already been called for this position (above): place what it returned.
+			//  (If it asked for a removal of something that isn't there, there is nothing to do.)
+			if n2 == nil {
+				return ma.Finish()
+			}
+			if err := ma.AssembleKey().AssignString(seg.String()); err != nil {
+				return err
+			}
+			if err := ma.AssembleValue().AssignNode(n2); err != nil {
+				return err
+			}
+			return ma.Finish()
+		}
 		if err := ma.AssembleKey().AssignString(seg.String()); err != nil {
 			return err
 		}
